@@ -63,6 +63,14 @@ theorem C01_int_leaf (i : Int) : Prim.int.norm i = i := rfl
 theorem C01_bool_leaf (b : Bool) : Prim.boolStrict.norm b = b := rfl
 theorem C01_enum_leaf (vals : List String) (s : String) : (Prim.enum vals).norm s = s := rfl
 theorem C01_repr_leaf (s : String) : Prim.decRepr.norm s = s := rfl
+
+/-- reals written with `decimal_to_str` (rectangle length / width / orientation, circle radius) are not truncated: a repr
+    without exponent is written as it is; one with exponent is replaced by its positional form (same value, harness table) -/
+theorem C01_plain_leaf (P : Params) (s : String) : (Prim.decPlain P).norm s = decimalToStr P s := rfl
+
+theorem C01_decimalToStr_plain (P : Params) (s : String) (h : s.toList.contains 'e' = false) (h' : s.toList.contains 'E' = false) :
+    decimalToStr P s = s := by
+  simp only [decimalToStr, h, h', Bool.or_self, Bool.false_eq_true, ↓reduceIte]
 theorem C01_real_leaf (P : Params) (s : String) : (Prim.dec P).norm s = floatToStr P s := rfl
 
 /-- a repr without exponent is cut after `d` fraction digits -/
@@ -238,9 +246,9 @@ theorem C01_witness_virtual (cfg : Cfg) (s : Sign) : ((signE cfg).norm s).virtua
     a centred, unrotated one is written without them and reads back with the reader's defaults, i.e. unchanged -/
 theorem C01_dynamic_shape_kept (P : Params) (l w o : Real) (c : Pt) :
     normShape1 P true (.rect l w o c) =
-      .rect l w (if isZeroRepr o then "0.0" else o)
+      .rect (decimalToStr P l) (decimalToStr P w) (if isZeroRepr o then "0.0" else decimalToStr P o)
         (if isZeroRepr c.x && isZeroRepr c.y then zeroPt else ⟨floatToStr P c.x, floatToStr P c.y⟩) := by
-  simp only [normShape1, rectE, ECodec.ofKids, Codec.pair, Codec.child, ECodec.ofText, Prim.decRepr, orientC, centerC,
+  simp only [normShape1, rectE, ECodec.ofKids, Codec.pair, Codec.child, ECodec.ofText, Prim.decPlain, orientC, centerC,
     Codec.optChild, Bool.not_true, Bool.false_or, id]
   cases h1 : isZeroRepr o <;> cases h2 : (isZeroRepr c.x && isZeroRepr c.y) <;> simp [ptE, ECodec.ofKids, Codec.iso, Codec.pair, Codec.child,
     ECodec.ofText, Prim.dec]
@@ -316,7 +324,7 @@ def realClasses : List (List String) :=
    ["time_step", "longitudinal_position", "velocity", "acceleration", "jerk"],
    ["time_step", "position", "velocity", "orientation", "acceleration"]]
 
-def realCfg (d : Nat) : Cfg := ⟨⟨d, []⟩, realClasses, ["274", "206", "205"], some "274"⟩
+def realCfg (d : Nat) : Cfg := ⟨⟨d, [], []⟩, realClasses, ["274", "206", "205"], some "274"⟩
 
 /-- the hypotheses of `C01_xml_roundtrip` hold for the real class table at every precision -/
 theorem C01_realCfg_ok (d : Nat) : CfgOk (realCfg d) ∧ (realCfg d).classes ≠ [] ∧ ∀ C, C ∈ (realCfg d).classes → C.Nodup := by
